@@ -364,20 +364,20 @@ theorem decodeTx_eq {cx : Ctx} {c : SColl} (H : Hyp cx c) (hR : Rendered cx c) (
       unfold cdsRows
       rw [hF g t k hg ht hk]
       exact List.mem_map.mpr ⟨p, hp, rfl⟩)
-    simp only [Function.comp]
-    have hph : (toPRow ({ seqid := cx.seqid, type := .cds, start := p.2.1.1 - cx.off + 1, stop := p.2.1.2 - cx.off,
-        strand := t.strand, phase := toPhase p.2.2,
-        attrs := ⟨k.guid ++ '-' :: Model.Gff.natStr p.1, some t.guid, t.pid, cdsExportQuals t (tqOf g t), cx.raise⟩ } : Row)).phase
-        = phaseNat (toPhase p.2.2) := rfl
-    rw [hph]
-    have hfr2 := frame_roundtrip p.2.2 hfn
-    cases hq : phaseNat (toPhase p.2.2) with
-    | none => rw [hq] at hfr2; cases hfr2
-    | some ph =>
-      rw [hq] at hfr2
-      simp only at hfr2 ⊢
-      rw [hfr2]
-      simp only [Option.map_some, Option.some.injEq]
+    obtain ⟨i, b, f⟩ := p
+    simp only [Function.comp] at hrm hb hin hfn ⊢
+    have hgoal : ∀ (R : Row), R.phase = toPhase f →
+        (match (toPRow R).phase with
+          | some ph => Option.map (fun f' => (PRow.blk cx.off (toPRow R), (toPRow R).strand, f', (toPRow R).info))
+              (Spec.Gff.frameOfPhase ph)
+          | none => none) = some (PRow.blk cx.off (toPRow R), (toPRow R).strand, f, (toPRow R).info) := by
+      intro R hR
+      have : (toPRow R).phase = phaseNat (toPhase f) := by unfold toPRow; rw [hR]
+      rw [this]
+      cases f <;> first | exact absurd rfl hfn | rfl
+    refine (hgoal _ rfl).trans ?_
+    simp only [Option.some.injEq]
+    · skip
       refine Prod.ext ?_ (Prod.ext rfl (Prod.ext rfl ?_))
       · simp only [toPRow_blk, rowBlk]
         ext <;> simp <;> omega
@@ -390,5 +390,569 @@ theorem decodeTx_eq {cx : Ctx} {c : SColl} (H : Hyp cx c) (hR : Rendered cx c) (
         rw [this]
         simp only [Info.mk.injEq, Option.some.injEq, true_and, and_true, natStr_agree, Spec.Gff.optName]
         simp
+
+/-! ## Part 3 — one gene: its transcripts in file order -/
+
+theorem gene_unique {c : SColl} (hnd : (allGuids c).Nodup) {g g' : SGene}
+    (hg : SChild.gene g ∈ c.children) (hg' : SChild.gene g' ∈ c.children) (e : g'.guid = g.guid) : g' = g := by
+  rw [allGuids_eq] at hnd
+  have hpw := List.pairwise_flatMap.mp (List.nodup_iff_pairwise_ne.mp hnd)
+  have m1 : g.guid ∈ childGuids (.gene g) := List.mem_cons_self
+  have m2 : g'.guid ∈ childGuids (.gene g') := List.mem_cons_self
+  rcases pairwise_mem hpw.2 hg' hg with h | h | h
+  · exact SChild.gene.inj h
+  · exact absurd e (h _ m2 _ m1)
+  · exact absurd e.symm (h _ m1 _ m2)
+
+theorem map_head_sublist_flatMap {α β : Type} (f : α → List β) (hd : α → β) (tl : α → List β)
+    (h : ∀ x, f x = hd x :: tl x) : ∀ l : List α, (l.map hd).Sublist (l.flatMap f)
+  | [] => by simp
+  | a :: l => by
+    rw [List.map_cons, List.flatMap_cons, h a]
+    exact List.Sublist.cons_cons _ ((map_head_sublist_flatMap f hd tl h l).trans (List.sublist_append_right _ _))
+
+def isTxOf (g : SGene) : Row → Bool := isChildOf .transcript g.guid
+
+theorem unsorted_nodup {cx : Ctx} {c : SColl} (H : Hyp cx c) : (unsortedRows cx c).Nodup := by
+  have := sortedRows_nodup cx c H.nd H.uu
+  unfold sortedRows at this
+  exact (List.mergeSort_perm _ _).nodup_iff.mp this
+
+theorem geneRows_sub_unsorted {cx : Ctx} {c : SColl} {g : SGene} (hg : SChild.gene g ∈ c.children) :
+    (geneRows cx g).Sublist (unsortedRows cx c) :=
+  sublist_flatMap_of_mem (f := childRows cx) (mem_sortedChildren.mpr hg)
+
+/-- in the UNSORTED stream the transcript rows naming gene `g` are the heads of `g.txs`, in that order -/
+theorem tx_heads_unsorted {cx : Ctx} {c : SColl} (H : Hyp cx c) {g : SGene} (hg : SChild.gene g ∈ c.children) :
+    (unsortedRows cx c).filter (isTxOf g) = g.txs.map (txHead cx g) := by
+  refine filter_eq_of_sublist ?_ ?_ ?_ (unsorted_nodup H)
+  · have h1 : (g.txs.map (txHead cx g)).Sublist (g.txs.flatMap fun t => txRows cx t g.guid (geneExportQuals g)) :=
+      map_head_sublist_flatMap _ (txHead cx g) (fun t => exonRowsOf cx t (tqOf g t) ++ cdsRowsOf cx t (tqOf g t))
+        (fun t => txRows_eq cx g t) g.txs
+    have h2 : (g.txs.flatMap fun t => txRows cx t g.guid (geneExportQuals g)).Sublist (geneRows cx g) := by
+      rw [geneRows_eq]; exact List.sublist_cons_self _ _
+    exact (h1.trans h2).trans (geneRows_sub_unsorted hg)
+  · intro r hr
+    obtain ⟨t, _, rfl⟩ := List.mem_map.mp hr
+    simp [isTxOf, isChildOf, txHead]
+  · intro r hr hp
+    simp only [isTxOf, isChildOf, decide_eq_true_eq] at hp
+    unfold unsortedRows at hr
+    obtain ⟨x, hx, hrx⟩ := List.mem_flatMap.mp hr
+    have hxc : x ∈ c.children := mem_sortedChildren.mp hx
+    cases x with
+    | fc f =>
+      exfalso
+      rcases fcRows_origin hrx with h | ⟨f', _, h | h⟩ <;> rw [h.1] at hp <;> exact absurd hp.1 (by decide)
+    | gene g' =>
+      have hrx' : r ∈ geneRows cx g' := hrx
+      rw [geneRows_eq] at hrx'
+      rcases List.mem_cons.mp hrx' with rfl | hrest
+      · exact absurd hp.1 (by simp [geneHead])
+      · obtain ⟨t', ht', hrt⟩ := List.mem_flatMap.mp hrest
+        rw [txRows_eq] at hrt
+        rcases List.mem_cons.mp hrt with rfl | hin
+        · have e : g'.guid = g.guid := by
+            have := hp.2; simp only [txHead, Option.some.injEq] at this; exact this
+          have := gene_unique H.nd hg hxc e
+          subst this
+          exact List.mem_map.mpr ⟨t', ht', rfl⟩
+        · exfalso
+          rcases List.mem_append.mp hin with he | hc
+          · rw [(exonRowsOf_facts he).1] at hp; exact absurd hp.1 (by decide)
+          · rw [(cdsRowsOf_facts hc).1] at hp; exact absurd hp.1 (by decide)
+
+def txLe (a b : STx) : Bool := decide (firstStart a.exons ≤ firstStart b.exons)
+
+/-- in the SORTED output the transcript rows naming gene `g` are the heads of `g.txs` stably sorted by start -/
+theorem tx_heads_sorted {cx : Ctx} {c : SColl} (H : Hyp cx c) {g : SGene} (hg : SChild.gene g ∈ c.children) :
+    (sortedRows cx c).filter (isTxOf g) = (Spec.Gff.sortBy txLe g.txs).map (txHead cx g) := by
+  unfold sortedRows
+  rw [mergeSort_filter rowLe rowLe_trans rowLe_total, tx_heads_unsorted H hg,
+    ← sortBy_eq_mergeSort rowLe rowLe_trans rowLe_total]
+  apply sortBy_map
+  intro a ha b hb
+  have wa := (txWF_parts (geneWF_tx (collWF_gene H.wf hg) ha)).2.2.1
+  have wb := (txWF_parts (geneWF_tx (collWF_gene H.wf hg) hb)).2.2.1
+  simp only [rowLe, txLe, txHead]
+  apply decide_eq_decide.mpr
+  constructor <;> intro h <;> omega
+
+theorem txLe_spec {cx : Ctx} {c : SColl} (H : Hyp cx c) {g : SGene} (hg : SChild.gene g ∈ c.children) :
+    Spec.Gff.sortBy (fun a b : STx => decide ((Spec.Gff.spanOf a.exons).1 ≤ (Spec.Gff.spanOf b.exons).1)) g.txs =
+      Spec.Gff.sortBy txLe g.txs := by
+  apply sortBy_congr
+  intro a ha b hb
+  obtain ⟨na, ga, _, _⟩ := txWF_parts (geneWF_tx (collWF_gene H.wf hg) ha)
+  obtain ⟨nb, gb, _, _⟩ := txWF_parts (geneWF_tx (collWF_gene H.wf hg) hb)
+  rw [spanOf_good ga na, spanOf_good gb nb]
+  rfl
+
+/-- the gene read back from the parsed, sorted export is the Spec's expected gene -/
+theorem decodeGene_eq {cx : Ctx} {c : SColl} (H : Hyp cx c) (hR : Rendered cx c) (hF : FramesKept cx c)
+    {g : SGene} (hg : SChild.gene g ∈ c.children) :
+    ({ info := (toPRow (geneHead cx g)).info, strand := (toPRow (geneHead cx g)).strand,
+       span := (toPRow (geneHead cx g)).blk cx.off,
+       txs := (Spec.Gff.childrenOf ((sortedRows cx c).map toPRow) Spec.Gff.tTranscript (toPRow (geneHead cx g)).id).map
+                (Spec.Gff.decodeTx cx.off ((sortedRows cx c).map toPRow)) } : Spec.Gff.DGene) = Spec.Gff.expectGene g := by
+  have hgw := collWF_gene H.wf hg
+  have hgw' := hgw
+  unfold geneWF at hgw'
+  simp only [Bool.and_eq_true, Bool.not_eq_true', List.all_eq_true] at hgw'
+  have hne : g.txs ≠ [] := by intro e; rw [e] at hgw'; simp at hgw'
+  have hhd : geneHead cx g ∈ sortedRows cx c := by
+    rw [mem_sortedRows]
+    exact (geneRows_sub_unsorted hg).subset (by rw [geneRows_eq]; exact List.mem_cons_self)
+  unfold Spec.Gff.expectGene
+  rw [toPRow_id' H hhd]
+  have hid : (geneHead cx g).attrs.id = g.guid := rfl
+  rw [hid, tTranscript_eq, filter_children H]
+  have hfl : (sortedRows cx c).filter (isChildOf .transcript g.guid) = (Spec.Gff.sortBy txLe g.txs).map (txHead cx g) :=
+    tx_heads_sorted H hg
+  rw [hfl, txLe_spec H hg, List.map_map, List.map_map]
+  have htx : (Spec.Gff.sortBy txLe g.txs).map
+      ((Spec.Gff.decodeTx cx.off ((sortedRows cx c).map toPRow) ∘ toPRow) ∘ txHead cx g) =
+      (Spec.Gff.sortBy txLe g.txs).map (Spec.Gff.expectTx g) := by
+    apply List.map_congr_left
+    intro t ht
+    exact decodeTx_eq H hR hF hg ((mem_sortBy txLe t g.txs).mp ht)
+  rw [htx]
+  have hinfo : (toPRow (geneHead cx g)).info =
+      ⟨some g.guid, Spec.Gff.optName g.sym, expectAttrs (Spec.Gff.geneQuals g)⟩ := by
+    unfold PRow.info
+    rw [toPRow_id' H hhd, toPRow_name]
+    obtain ⟨line, hl⟩ := hR _ hhd
+    have := toPRow_info_attrs _ line hl
+    unfold PRow.info at this
+    simp only at this
+    rw [this]
+    have : (geneHead cx g).attrs.quals = geneExportQuals g := rfl
+    rw [this, expectAttrs_congr (gene_quals_rel g)]
+    rfl
+  have hspan : (toPRow (geneHead cx g)).blk cx.off = Spec.Gff.spanOf (g.txs.map fun t => Spec.Gff.spanOf t.exons) := by
+    rw [spanOf_spans _ (by simpa using hne), List.map_map, List.map_map]
+    have e1 : g.txs.map ((fun b : Blk => b.1) ∘ fun t => Spec.Gff.spanOf t.exons) = g.txs.map fun t => firstStart t.exons := by
+      apply List.map_congr_left
+      intro t ht
+      obtain ⟨nt, gt, _, _⟩ := txWF_parts (hgw'.2 t ht)
+      simp only [Function.comp, spanOf_good gt nt]
+    have e2 : g.txs.map ((fun b : Blk => b.2) ∘ fun t => Spec.Gff.spanOf t.exons) = g.txs.map fun t => lastEnd t.exons := by
+      apply List.map_congr_left
+      intro t ht
+      obtain ⟨nt, gt, _, _⟩ := txWF_parts (hgw'.2 t ht)
+      simp only [Function.comp, spanOf_good gt nt]
+    rw [e1, e2, toPRow_blk]
+    have hf := gene_row_facts hgw (geneRows_origin (by rw [geneRows_eq]; exact List.mem_cons_self : geneHead cx g ∈ geneRows cx g))
+    have hne' : (g.txs.map fun t => firstStart t.exons) ≠ [] := by simpa using hne
+    obtain ⟨t0, ht0, hmin⟩ := List.mem_map.mp (minNat_mem hne')
+    have hoff0 := (txWF_parts (hgw'.2 t0 ht0)).2.2.1
+    simp only [rowBlk, geneHead, Prod.mk.injEq] at hf ⊢
+    omega
+  rw [hinfo, hspan]
+  rfl
+
+/-! ## Part 4 — the genes of the collection in file order -/
+
+def geneOf? : SChild → Option SGene
+  | .gene g => some g
+  | .fc _ => none
+
+def genesIn (l : List SChild) : List SGene := l.filterMap geneOf?
+
+theorem mem_genesIn {l : List SChild} {g : SGene} : g ∈ genesIn l ↔ SChild.gene g ∈ l := by
+  unfold genesIn
+  rw [List.mem_filterMap]
+  constructor
+  · rintro ⟨x, hx, hg⟩
+    cases x with
+    | gene g' => simp only [geneOf?, Option.some.injEq] at hg; subst hg; exact hx
+    | fc f => simp [geneOf?] at hg
+  · intro h; exact ⟨_, h, rfl⟩
+
+theorem gene_heads_sublist (cx : Ctx) : ∀ l : List SChild,
+    ((genesIn l).map (geneHead cx)).Sublist (l.flatMap (childRows cx))
+  | [] => by simp [genesIn]
+  | x :: l => by
+    have ih := gene_heads_sublist cx l
+    cases x with
+    | gene g =>
+      simp only [genesIn, List.filterMap_cons, geneOf?, List.map_cons, List.flatMap_cons, childRows]
+      rw [geneRows_eq, List.cons_append]
+      exact List.Sublist.cons_cons _ (ih.trans (List.sublist_append_right _ _))
+    | fc f =>
+      simp only [genesIn, List.filterMap_cons, geneOf?, List.flatMap_cons]
+      exact ih.trans (List.sublist_append_right _ _)
+
+theorem childLe_trans : ∀ a b c : SChild, decide (Model.Gff.childStart a ≤ Model.Gff.childStart b) = true →
+    decide (Model.Gff.childStart b ≤ Model.Gff.childStart c) = true →
+    decide (Model.Gff.childStart a ≤ Model.Gff.childStart c) = true := by
+  intro a b c h1 h2; simp only [decide_eq_true_eq] at *; omega
+
+theorem childLe_total : ∀ a b : SChild, (decide (Model.Gff.childStart a ≤ Model.Gff.childStart b) ||
+    decide (Model.Gff.childStart b ≤ Model.Gff.childStart a)) = true := by
+  intro a b; simp only [Bool.or_eq_true, decide_eq_true_eq]; omega
+
+theorem gene_heads_sorted {cx : Ctx} {c : SColl} (H : Hyp cx c) :
+    (sortedRows cx c).filter (isTop .gene) = (genesIn (sortedChildren c)).map (geneHead cx) := by
+  refine filter_eq_of_sublist ?_ ?_ ?_ (sortedRows_nodup cx c H.nd H.uu)
+  · unfold sortedRows
+    apply List.sublist_mergeSort rowLe_trans rowLe_total
+    · rw [List.pairwise_map]
+      unfold genesIn
+      rw [List.pairwise_filterMap]
+      have hs : (sortedChildren c).Pairwise (fun a b => decide (Model.Gff.childStart a ≤ Model.Gff.childStart b) = true) :=
+        List.pairwise_mergeSort childLe_trans childLe_total c.children
+      refine hs.imp ?_
+      intro a b hab ga hga gb hgb
+      cases a with
+      | fc f => simp [geneOf?] at hga
+      | gene g1 =>
+        cases b with
+        | fc f => simp [geneOf?] at hgb
+        | gene g2 =>
+          simp only [geneOf?, Option.mem_def, Option.some.injEq] at hga hgb
+          subst hga; subst hgb
+          simp only [decide_eq_true_eq, Model.Gff.childStart] at hab
+          simp only [rowLe, geneHead]
+          have hab' := of_decide_eq_true hab
+          apply decide_eq_true
+          omega
+    · exact gene_heads_sublist cx (sortedChildren c)
+  · intro r hr
+    obtain ⟨g, _, rfl⟩ := List.mem_map.mp hr
+    simp [isTop, geneHead]
+  · intro r hr hp
+    simp only [isTop, decide_eq_true_eq] at hp
+    rw [mem_sortedRows] at hr
+    unfold unsortedRows at hr
+    obtain ⟨x, hx, hrx⟩ := List.mem_flatMap.mp hr
+    cases x with
+    | fc f =>
+      exfalso
+      rcases fcRows_origin hrx with h | ⟨f', _, h | h⟩ <;> rw [h.1] at hp <;> exact absurd hp.1 (by decide)
+    | gene g' =>
+      have hrx' : r ∈ geneRows cx g' := hrx
+      rw [geneRows_eq] at hrx'
+      rcases List.mem_cons.mp hrx' with rfl | hrest
+      · exact List.mem_map.mpr ⟨g', mem_genesIn.mpr hx, rfl⟩
+      · exfalso
+        obtain ⟨t', _, hrt⟩ := List.mem_flatMap.mp hrest
+        rw [txRows_eq] at hrt
+        rcases List.mem_cons.mp hrt with rfl | hin
+        · exact absurd hp.1 (by simp [txHead])
+        · rcases List.mem_append.mp hin with he | hc
+          · rw [(exonRowsOf_facts he).1] at hp; exact absurd hp.1 (by decide)
+          · rw [(cdsRowsOf_facts hc).1] at hp; exact absurd hp.1 (by decide)
+
+/-- the genes read back from the parsed, sorted export -/
+theorem decoded_genes {cx : Ctx} {c : SColl} (H : Hyp cx c) (hR : Rendered cx c) (hF : FramesKept cx c) :
+    (Spec.Gff.gffDecode cx.off ((sortedRows cx c).map toPRow)).genes =
+      (genesIn (sortedChildren c)).map Spec.Gff.expectGene := by
+  unfold Spec.Gff.gffDecode
+  simp only
+  rw [tGene_eq, filter_top H, gene_heads_sorted H, List.map_map, List.map_map]
+  apply List.map_congr_left
+  intro g hg
+  have hgc : SChild.gene g ∈ c.children := mem_sortedChildren.mp (mem_genesIn.mp hg)
+  exact decodeGene_eq H hR hF hgc
+
+/-! ## Part 5 — the Spec's `expected`, genes component; the complete equation for gene collections -/
+
+theorem childStart_agree {off : Nat} {x : SChild} (h : childWF off x = true) :
+    Spec.Gff.childStart x = Model.Gff.childStart x := by
+  cases x with
+  | gene g =>
+    unfold childWF geneWF at h
+    simp only [Bool.and_eq_true, Bool.not_eq_true', List.all_eq_true] at h
+    have hne : g.txs ≠ [] := by intro e; rw [e] at h; simp at h
+    simp only [Spec.Gff.childStart, Model.Gff.childStart]
+    rw [spanOf_spans _ (by simpa using hne), List.map_map]
+    simp only
+    congr 1
+    apply List.map_congr_left
+    intro t ht
+    obtain ⟨nt, gt, _, _⟩ := txWF_parts (h.2 t ht)
+    simp only [Function.comp, spanOf_good gt nt]
+  | fc f =>
+    unfold childWF fcWF at h
+    simp only [Bool.and_eq_true, Bool.not_eq_true', List.all_eq_true] at h
+    have hne : f.feats ≠ [] := by intro e; rw [e] at h; simp at h
+    simp only [Spec.Gff.childStart, Model.Gff.childStart]
+    rw [spanOf_spans _ (by simpa using hne), List.map_map]
+    simp only
+    congr 1
+    apply List.map_congr_left
+    intro t ht
+    have hw := h.2 t ht
+    unfold featWF at hw
+    simp only [Bool.and_eq_true, Bool.not_eq_true', decide_eq_true_eq] at hw
+    have nt : t.blocks ≠ [] := by intro e; rw [e] at hw; simp at hw
+    simp only [Function.comp, spanOf_good hw.1.2 nt]
+
+theorem expected_children {cx : Ctx} {c : SColl} (H : Hyp cx c) :
+    Spec.Gff.sortBy (fun a b => decide (Spec.Gff.childStart a ≤ Spec.Gff.childStart b)) c.children = sortedChildren c := by
+  have hall := List.all_eq_true.mp (by have := H.wf; unfold collWF at this; exact this)
+  rw [sortBy_congr _ (fun a b => decide (Model.Gff.childStart a ≤ Model.Gff.childStart b)) c.children
+    (fun a ha b hb => by rw [childStart_agree (hall a ha), childStart_agree (hall b hb)])]
+  unfold sortedChildren
+  exact sortBy_eq_mergeSort _ childLe_trans childLe_total c.children
+
+theorem expected_genes {cx : Ctx} {c : SColl} (H : Hyp cx c) :
+    (Spec.Gff.expected c).genes = (genesIn (sortedChildren c)).map Spec.Gff.expectGene := by
+  unfold Spec.Gff.expected
+  simp only
+  rw [expected_children H]
+  unfold genesIn
+  rw [List.map_filterMap]
+  congr 1
+  funext x
+  cases x <;> rfl
+
+/-- T5 (genes): the genes decoded from the parsed export are the Spec's expected genes — for every well-formed
+    collection (feature collections may be present) -/
+theorem decode_genes_eq {cx : Ctx} {c : SColl} (H : Hyp cx c) (hR : Rendered cx c) (hF : FramesKept cx c) :
+    (Spec.Gff.gffDecode cx.off ((sortedRows cx c).map toPRow)).genes = (Spec.Gff.expected c).genes := by
+  rw [decoded_genes H hR hF, expected_genes H]
+
+/-- a collection of genes only -/
+def genesOnly (c : SColl) : Bool := c.children.all fun x => match x with | .gene _ => true | .fc _ => false
+
+theorem no_fc_rows {cx : Ctx} {c : SColl} (hgo : genesOnly c = true) {r : Row} (hr : r ∈ sortedRows cx c) :
+    r.type ≠ .featureCollection := by
+  rw [mem_sortedRows] at hr
+  unfold unsortedRows at hr
+  obtain ⟨x, hx, hrx⟩ := List.mem_flatMap.mp hr
+  have hxc := mem_sortedChildren.mp hx
+  cases x with
+  | fc f =>
+    have := List.all_eq_true.mp hgo _ hxc
+    simp at this
+  | gene g =>
+    rcases geneRows_origin hrx with h | ⟨t, _, h | h | h⟩ <;> rw [h.1] <;> decide
+
+/-- T5 (complete, gene collections): decoding the parsed export gives exactly `expected c` -/
+theorem decode_eq {cx : Ctx} {c : SColl} (H : Hyp cx c) (hR : Rendered cx c) (hF : FramesKept cx c)
+    (hgo : genesOnly c = true) :
+    Spec.Gff.gffDecode cx.off ((sortedRows cx c).map toPRow) = Spec.Gff.expected c := by
+  have hg := decode_genes_eq H hR hF
+  have hf1 : (Spec.Gff.gffDecode cx.off ((sortedRows cx c).map toPRow)).fcs = [] := by
+    unfold Spec.Gff.gffDecode
+    simp only
+    rw [tFc_eq, filter_top H]
+    have : (sortedRows cx c).filter (isTop .featureCollection) = [] := by
+      rw [List.filter_eq_nil_iff]
+      intro r hr
+      simp only [isTop, decide_eq_true_eq, not_and]
+      intro h; exact absurd h (no_fc_rows hgo hr)
+    rw [this]; rfl
+  have hf2 : (Spec.Gff.expected c).fcs = [] := by
+    unfold Spec.Gff.expected
+    simp only
+    rw [List.filterMap_eq_nil_iff]
+    intro x hx
+    have hxc : x ∈ c.children := (mem_sortBy _ x c.children).mp hx
+    have := List.all_eq_true.mp hgo _ hxc
+    cases x with
+    | gene g => rfl
+    | fc f => simp at this
+  cases hd : Spec.Gff.gffDecode cx.off ((sortedRows cx c).map toPRow) with
+  | mk g1 f1 =>
+    cases he : Spec.Gff.expected c with
+    | mk g2 f2 =>
+      rw [hd] at hg hf1
+      rw [he] at hg hf2
+      simp only at hg hf1 hf2
+      rw [hg, hf1, hf2]
+
+/-! ## Part 6 — from `toGffLines` to the decoded structure -/
+
+/-- the qualifier keys of the source are non-empty strings -/
+def SrcKeysOk (c : SColl) : Prop :=
+  ∀ x ∈ c.children, match x with
+    | .gene g => KeysOk g.quals ∧ ∀ t ∈ g.txs, KeysOk t.quals
+    | .fc f => KeysOk f.quals ∧ ∀ t ∈ f.feats, KeysOk t.quals
+
+theorem row_seqid_keys {cx : Ctx} {c : SColl} (hk : SrcKeysOk c) {r : Row} (hr : r ∈ sortedRows cx c) :
+    r.seqid = cx.seqid ∧ KeysOk r.attrs.quals := by
+  rw [mem_sortedRows] at hr
+  unfold unsortedRows at hr
+  obtain ⟨x, hx, hrx⟩ := List.mem_flatMap.mp hr
+  have hxk := hk x (mem_sortedChildren.mp hx)
+  cases x with
+  | gene g =>
+    simp only at hxk
+    have hgq := keysOk_gene hxk.1
+    have hrx' : r ∈ geneRows cx g := hrx
+    rw [geneRows_eq] at hrx'
+    rcases List.mem_cons.mp hrx' with rfl | hrest
+    · exact ⟨rfl, hgq⟩
+    · obtain ⟨t, ht, hrt⟩ := List.mem_flatMap.mp hrest
+      have htq := keysOk_tx (hxk.2 t ht) hgq
+      rw [txRows_eq] at hrt
+      rcases List.mem_cons.mp hrt with rfl | hin
+      · exact ⟨rfl, htq⟩
+      · rcases List.mem_append.mp hin with he | hc
+        · obtain ⟨p, _, rfl⟩ := List.mem_map.mp he
+          exact ⟨rfl, htq⟩
+        · unfold cdsRowsOf at hc
+          split at hc
+          · simp only [cdsRows, List.mem_map] at hc
+            obtain ⟨p, _, rfl⟩ := hc
+            exact ⟨rfl, keysOk_cds htq⟩
+          · simp at hc
+  | fc f =>
+    simp only at hxk
+    have hfq := keysOk_fc hxk.1
+    have hrx' : r ∈ fcRows cx f := hrx
+    unfold fcRows at hrx'
+    simp only at hrx'
+    rcases List.mem_cons.mp hrx' with rfl | hrest
+    · exact ⟨rfl, hfq⟩
+    · obtain ⟨t, ht, hrt⟩ := List.mem_flatMap.mp hrest
+      have htq := keysOk_feat (hxk.2 t ht) hfq
+      unfold featRows at hrt
+      simp only at hrt
+      rcases List.mem_cons.mp hrt with rfl | hin
+      · exact ⟨rfl, htq⟩
+      · obtain ⟨p, _, rfl⟩ := List.mem_map.mp hin
+        exact ⟨rfl, htq⟩
+
+theorem mapM_ok_mem {α β : Type} (f : α → Except Err β) : ∀ (l : List α) (out : List β), l.mapM f = .ok out →
+    ∀ x ∈ l, ∃ y, f x = .ok y
+  | [], _, _ => by intro x hx; simp at hx
+  | a :: rest, out, h => by
+    rw [List.mapM_cons] at h
+    cases ha : f a with
+    | error e => rw [ha] at h; cases h
+    | ok b =>
+      rw [ha] at h
+      cases hr : rest.mapM f with
+      | error e => rw [hr] at h; cases h
+      | ok bs =>
+        intro x hx
+        rcases List.mem_cons.mp hx with rfl | hx'
+        · exact ⟨b, ha⟩
+        · exact mapM_ok_mem f rest bs hr x hx'
+
+/-- what the successful export gives: context, rendered rows, parsed rows -/
+theorem export_parses (c : SColl) (chromRel raise : Bool) (lines : List Str)
+    (h : toGffLines c chromRel raise = .ok lines) (hne : c.children ≠ []) :
+    ∃ cx, mkCtx c chromRel raise = .ok cx ∧ (sortedRows cx c).mapM rowStr = .ok lines := by
+  unfold toGffLines at h
+  have : c.children.isEmpty = false := by cases hc : c.children <;> simp_all
+  simp only [this, Bool.false_eq_true, if_false] at h
+  cases hcx : mkCtx c chromRel raise with
+  | error e => rw [hcx] at h; cases h
+  | ok cx =>
+    rw [hcx] at h
+    exact ⟨cx, rfl, h⟩
+
+theorem mkCtx_seqid {c : SColl} {chromRel raise : Bool} {cx : Ctx} (h : mkCtx c chromRel raise = .ok cx) :
+    c.seqName = some cx.seqid ∧ cx.seqid ≠ [] := by
+  unfold mkCtx at h
+  cases hs : c.seqName with
+  | none => rw [hs] at h; cases h
+  | some s =>
+    rw [hs] at h
+    simp only at h
+    split at h
+    · cases h
+    · rename_i hemp
+      have hne : s ≠ [] := by intro e; rw [e] at hemp; simp at hemp
+      split at h
+      · cases h; exact ⟨rfl, hne⟩
+      · split at h
+        · cases h; exact ⟨rfl, hne⟩
+        · cases h
+
+/-- T5 (lines): every exported line parses, by the Spec's reader, to the image of its row -/
+theorem export_lines_parse {cx : Ctx} {c : SColl} {lines : List Str} (H : Hyp cx c)
+    (hrows : (sortedRows cx c).mapM rowStr = .ok lines) (hseq : noSep cx.seqid) (hsne : cx.seqid ≠ [])
+    (hk : SrcKeysOk c) : lines.mapM Spec.Gff.parseLine = some ((sortedRows cx c).map toPRow) := by
+  apply lines_parse _ _ hrows
+  intro r hr
+  have h1 := row_seqid_keys hk hr
+  have h2 := sortedRows_facts H.wf hr
+  exact ⟨by rw [h1.1]; exact hseq, by rw [h1.1]; exact hsne, h2.1, h2.2.1, h1.2⟩
+
+/-! ## Part 7 — the statement from `toGffLines`, and totality without `raise_on_reserved_attributes` -/
+
+theorem export_decodes {c : SColl} {chromRel raise : Bool} {lines : List Str} {cx : Ctx}
+    (h : toGffLines c chromRel raise = .ok lines) (hne : c.children ≠ []) (hcx : mkCtx c chromRel raise = .ok cx)
+    (H : Hyp cx c) (hF : FramesKept cx c) (hk : SrcKeysOk c) (hseq : noSep cx.seqid) :
+    ∃ prows, lines.mapM Spec.Gff.parseLine = some prows ∧
+      (Spec.Gff.gffDecode cx.off prows).genes = (Spec.Gff.expected c).genes ∧
+      (genesOnly c = true → Spec.Gff.gffDecode cx.off prows = Spec.Gff.expected c) := by
+  obtain ⟨cx', hcx', hrows⟩ := export_parses c chromRel raise lines h hne
+  rw [hcx] at hcx'
+  cases hcx'
+  have hR : Rendered cx c := mapM_ok_mem rowStr _ _ hrows
+  refine ⟨_, export_lines_parse H hrows hseq (mkCtx_seqid hcx).2 hk, decode_genes_eq H hR hF, ?_⟩
+  intro hgo
+  exact decode_eq H hR hF hgo
+
+theorem mapM_all_ok {α β : Type} (f : α → Except Err β) : ∀ (l : List α), (∀ x ∈ l, ∃ y, f x = .ok y) →
+    ∃ out, l.mapM f = .ok out
+  | [], _ => ⟨[], rfl⟩
+  | a :: rest, h => by
+    obtain ⟨b, hb⟩ := h a List.mem_cons_self
+    obtain ⟨bs, hbs⟩ := mapM_all_ok f rest (fun x hx => h x (List.mem_cons_of_mem _ hx))
+    exact ⟨b :: bs, by rw [List.mapM_cons, hb, hbs]; rfl⟩
+
+theorem row_raise {cx : Ctx} {c : SColl} {r : Row} (hr : r ∈ sortedRows cx c) : r.attrs.raiseOnReserved = cx.raise := by
+  rw [mem_sortedRows] at hr
+  unfold unsortedRows at hr
+  obtain ⟨x, hx, hrx⟩ := List.mem_flatMap.mp hr
+  cases x with
+  | gene g =>
+    have hrx' : r ∈ geneRows cx g := hrx
+    rw [geneRows_eq] at hrx'
+    rcases List.mem_cons.mp hrx' with rfl | hrest
+    · rfl
+    · obtain ⟨t, ht, hrt⟩ := List.mem_flatMap.mp hrest
+      rw [txRows_eq] at hrt
+      rcases List.mem_cons.mp hrt with rfl | hin
+      · rfl
+      · rcases List.mem_append.mp hin with he | hc
+        · obtain ⟨p, _, rfl⟩ := List.mem_map.mp he; rfl
+        · unfold cdsRowsOf at hc
+          split at hc
+          · simp only [cdsRows, List.mem_map] at hc
+            obtain ⟨p, _, rfl⟩ := hc; rfl
+          · simp at hc
+  | fc f =>
+    have hrx' : r ∈ fcRows cx f := hrx
+    unfold fcRows at hrx'
+    simp only at hrx'
+    rcases List.mem_cons.mp hrx' with rfl | hrest
+    · rfl
+    · obtain ⟨t, ht, hrt⟩ := List.mem_flatMap.mp hrest
+      unfold featRows at hrt
+      simp only at hrt
+      rcases List.mem_cons.mp hrt with rfl | hin
+      · rfl
+      · obtain ⟨p, _, rfl⟩ := List.mem_map.mp hin; rfl
+
+/-- without `raise_on_reserved_attributes` the export of a collection with a context never refuses -/
+theorem toGffLines_noraise (c : SColl) (chromRel : Bool) (cx : Ctx) (hcx : mkCtx c chromRel false = .ok cx) :
+    ∃ lines, toGffLines c chromRel false = .ok lines := by
+  unfold toGffLines
+  split
+  · exact ⟨[], rfl⟩
+  · rw [hcx]
+    have hraise : cx.raise = false := by
+      unfold mkCtx at hcx
+      split at hcx
+      · cases hcx
+      · split at hcx
+        · cases hcx
+        · split at hcx
+          · cases hcx; rfl
+          · split at hcx
+            · cases hcx; rfl
+            · cases hcx
+    obtain ⟨out, hout⟩ := mapM_all_ok rowStr (sortedRows cx c) (fun r hr =>
+      GffAttrs.rowStr_noraise r (by rw [row_raise hr, hraise]))
+    exact ⟨out, by simpa [bind, Except.bind] using hout⟩
 
 end BioCantor.Proofs.GffFull
